@@ -8,6 +8,9 @@ use std::io::{BufRead, Write};
 
 mod p_config;
 mod sim;
+mod p_engine;
+mod p_kv;
+mod p_smcrash;
 mod p_store;
 mod p_buflog;
 mod p_repl;
@@ -28,6 +31,11 @@ fn dispatch(probe: &str, rt: &tokio::runtime::Runtime, case: Value) -> Value {
         "merge" => p_merge::run(rt, case),
         "store_log" => p_store::log(rt, case),
         "store_meta" => p_store::meta(rt, case),
+        "smcrash" => p_smcrash::crash(rt, case),
+        "snapreplay" => p_smcrash::snap(rt, case),
+        "kv" => p_kv::run(rt, case),
+        "codec" => p_engine::codec(rt, case),
+        "multiget" => p_engine::multiget(rt, case),
         "majority" => p_buflog::majority(rt, case),
         _ => Value::String(format!("unknown probe {probe}")),
     }
@@ -68,4 +76,7 @@ fn main() {
         };
         writeln!(out, "{}", v).unwrap();
     }
+    drop(out);
+    p_kv::shutdown();
+    p_engine::shutdown(&rt);
 }
